@@ -3,6 +3,7 @@ from engine_api import Cond
 PROPERTY = 'C16'
 LEVEL = 'other'
 ASSUMPTIONS = [
+    'the sorted class has mixed-case key letters (Node), one family of conditions uses C; one family builds and tears down another arrangement before the one being sorted',
     'arrangement = solver-chosen index into the table of ALL successor maps over n labelled instances (labels = creation order), so every partition into chains, every order within a chain and every creation order is one table entry',
     'order BETWEEN chains in the result is not constrained by the property and not checked; each chain must be contiguous, complete and in direction',
     'termination is observed with a fuel bound of 6n+10 calls of xtuml.meta.navigate_one (the sort makes at most 2 per member and step)',
@@ -23,6 +24,10 @@ def conditions(tier, seed):
         if n >= 2:
             out.append(Cond('ring_n%d' % n, 'c16_sort.py', dict(n=n, mode='ring'), timeout=t,
                             bound='all rings over %d instances, both phrases' % n, case_split=['ai', 'fwd']))
+    for n in range(2, 5):
+        out.append(Cond('chains_prehistory_n%d' % n, 'c16_sort.py', dict(n=n, mode='chains', prehistory=True, kind='C'), timeout=t,
+                        bound='all arrangements of %d instances, built after a relate/unrelate history (stale link bookkeeping), upper-case class name' % n,
+                        case_split=['ai', 'fwd'], twin=False))
     for n in range(1, (4 if tier == 'quick' else 5) + 1):
         shards = 1 if n < 4 else (8 if n == 4 else 64)
         for sh in range(shards):
